@@ -702,6 +702,37 @@ func TestCheck(t *testing.T) {
 		}
 	})
 
+	// Phase C2: several hyphens replaced at once by the same byte (all four, every pair, every triple), for every byte value.
+	r.Phase("C2: every subset of two to four hyphens replaced by the same byte (256 values) in plain, upper-case and URN texts x 4 rule sets", func() {
+		x := format(0x0123456789abcdef, 0xfedcba9876543210)
+		r.Parallel(256, 4, func(w *vkit.W, lo, hi int64) {
+			for v := lo; v < hi; v++ {
+				for _, base := range []string{x, strings.ToUpper(x), "urn:uuid:" + x} {
+					off := len(base) - 36
+					pos := []int{off + 8, off + 13, off + 18, off + 23}
+					for mask := 3; mask < 16; mask++ {
+						if mask&(mask-1) == 0 {
+							continue // single replacements are phase C's
+						}
+						b := []byte(base)
+						for k, p := range pos {
+							if mask>>uint(k)&1 == 1 {
+								b[p] = byte(v)
+							}
+						}
+						if string(b) == base {
+							continue
+						}
+						for _, rule := range rules {
+							judge(Case{Kind: "text", Text: vkit.B(b), Rule: rule}, w)
+							w.EvalRandom(vkit.Hash64("C2", string(b), strconv.Itoa(rule)), true)
+						}
+					}
+				}
+			}
+		})
+	})
+
 	r.Phase(fmt.Sprintf("W: %d conventional special texts (null, nil, the nil UUID, braces, every prefix of urn:uuid:, ...) x 4 rule sets x limits", len(ref.ConventionalTexts)), func() {
 		for _, lim := range []int{0, -1, 3, math.MaxInt, math.MaxInt - 1, 1 << 31, 1 << 32} {
 			restore := setLimit(lim)
